@@ -3,4 +3,4 @@ import EpdVerif.Props.C01
 import EpdVerif.Props.E2EAll
 import EpdVerif.Props.Panels
 #audit_namespace EpdVerif.Props.C01
-#audit_namespace EpdVerif.Props.E2E
+#audit_rec EpdVerif.Props.E2E
